@@ -1,7 +1,7 @@
 import TracklibVerif.Lemmas.ExprRpn
 import TracklibVerif.Lemmas.ExprExact
 import TracklibVerif.Lemmas.ExprErr
-import TracklibVerif.Lemmas.ExprPre10
+import TracklibVerif.Lemmas.ExprPre11
 import TracklibVerif.Lemmas.ExprExt
 import TracklibVerif.Lemmas.ExprAgg
 import TracklibVerif.Lemmas.ExprFn
@@ -11,7 +11,8 @@ import TracklibVerif.Lemmas.ExprPrime
 Property theorems only (helpers: `Lemmas/Rpn.lean`, `Lemmas/RpnChars.lean`, `Lemmas/Expr.lean`, `Lemmas/ExprRpn.lean`,
 `Lemmas/ExprPointwise.lean`, `Lemmas/ExprErr.lean` (error direction), `Lemmas/ExprPre*.lean` (the rewriting chain),
 `Lemmas/ExprAgg.lean` / `Lemmas/ExprFn.lean` (MIN MAX ARGMIN ARGMAX D I D2 against their documented formulas),
-`Lemmas/ExprPrime.lean` (the `'` shorthand)).
+`Lemmas/ExprPrime.lean` (the `'` shorthand), `Lemmas/ExprPre11.lean` (any number of bare minuses / doubled signs);
+the closed forms of `SUM AVG VAR STD MSE RMSE MEDIAN MAD` (T13, T14) are in `Props/C02Agg.lean`).
 Models: `Model/Rpn.lean` (token-level `utils.makeRPN`) and `Model/Expr.lean` (the rewriting chain,
 character-level `makeRPN`, `__evaluateRPN` / `__applyOperation`, the operator classes, the purge of
 `Track.operate`). The scalar type `α` is abstract (`Scalar α`): the statements hold for the `Float`
@@ -22,8 +23,9 @@ definitions of core/operators.py at each node (pointwise `+ - * / ^ < >` with th
 `Divider`, number∘feature and feature∘number forms, `I D D2 ABS SQRT LOG DIODE SIGN EXP COS SIN TAN`,
 `SUM AVG VAR STD MSE RMSE MAD MIN MAX MEDIAN ARGMIN ARGMAX`); it has no stack, no temporaries and no parser.
 The theorems cover both directions (value: T1–T5, error: T6) and start from the string the user types (T7, with the
-`'` shorthand: T11, and a sign typed directly after a binary `+` / `-`: T12). T8–T10 relate definitions as coded to their
-documented formulas: `MIN` / `MAX` (T8), `ARGMIN` / `ARGMAX` (T9, T9'), `D` / `I` / `D2` (T10).
+`'` shorthand: T11, a sign typed directly after a binary `+` / `-`: T12, any number of bare minuses and doubled signs in one
+string: T15). T8–T10 relate definitions as coded to their documented formulas: `MIN` / `MAX` (T8), `ARGMIN` / `ARGMAX` (T9, T9'),
+`D` / `I` / `D2` (T10); `SUM AVG VAR STD MSE RMSE` (T13) and `MEDIAN` / `MAD` (T14) are in `Props/C02Agg.lean`.
 
 The model is that of the code after the repairs 5676890 / 2dd86ce (`a/number`, `number/a` are single divisions, coded like
 the other scalar operators; they used to go through a reciprocal) and b728412 (`ARGMIN` / `ARGMAX` take their first index on
@@ -433,6 +435,38 @@ theorem operate_source_sign_pair (tr : Tr α) (pre : Str) (hp : PreOK pre) (e : 
     operate tr (P ++ s1 :: s2 :: Q) = operate tr (pre ++ src e) :=
   operate_sign_pair tr pre hp e h P Q s1 s2 o hs hS hP
 
+/-- **T15 (ANY number of bare minuses and doubled signs in one string)**: `Sugar s u` says that `u` is obtained from `s` by
+any number of the two sugarings of the bare-minus theorem and of T12, each applied to the result of the ones before, in any
+order: dropping the `0` of a `0-` that stands at the start or directly after `=`, `(` or `{`, and typing a binary `+` / `-`
+(between `p` and `q`: `okp p o`, `p ≠ (`, `okp o q`) as two signs with that product. If `s` is a printed source string
+(`pre` empty, or `lhs=`), `Track.operate` does on `u` what it does on `s` — so T7 and everything after it hold for strings
+such as `-a*(-b+a)--b`. (The eight replacements of `__unaryOp` are shown to act locally: on `X c - Q` and `X c 0 - Q`
+(`c` one of `=`, `(`) they agree for ALL strings `X`, `Q`; on `A s1 s2 B` and `A o B` as soon as `A` does not end with a sign,
+`(` or `=` and `B` does not start with a sign — `unaryOp_drop_zero_all`, `unaryOp_sign_pair_all` of `Lemmas/ExprPre11.lean`.) -/
+theorem operate_source_sugar (tr : Tr α) (pre : Str) (hp : PreOK pre) (e : Sx) (h : SrcOK e) (u : Str)
+    (hu : Sugar (pre ++ src e) u) : operate tr u = operate tr (pre ++ src e) :=
+  operate_sugar tr pre hp e h u hu
+
+/-- **T15' (tokens of a sugared string)**: the rewriting chain followed by `makeRPN`, applied to a value-form string with any
+number of bare minuses and doubled signs, yields `#output`, the postfix form of the tree it denotes (every bare or
+parenthesised minus being `0 - …`), `=`. -/
+theorem tokens_of_sugared_source (e : Sx) (h : SrcOK e) (u : Str) (hu : Sugar (src e) u) :
+    (preprocess u).bind (fun p => makeRPN p.1) = .ok (outputName :: (Expr.post (desugar e) ++ [['=']])) := by
+  have hp := preprocess_sugar [] preOK_nil e h u (by simpa using hu)
+  rw [List.nil_append] at hp
+  rw [hp]
+  exact tokens_of_preprocessed_source e h
+
+/-- **T15'' (a sugared statement `lhs=…`)**: with a left-hand side, `Track.operate` on the sugared string does what it does on
+the postfix tokens `lhs, postfix(desugar e), =` — so T3b–T3d and T6' apply to `c=-a*(-b+a)--b`. -/
+theorem operate_source_sugar_statement (tr : Tr α) (lhs : Str) (e : Sx) (hl : NameOK lhs) (hg : GoodTok lhs) (h : SrcOK e)
+    (hq : NoQuote (desugar e)) (u : Str) (hu : Sugar (lhs ++ '=' :: src e) u) :
+    operate tr u = operateTokens tr (lhs :: (Expr.post (desugar e) ++ [['=']])) true := by
+  have e1 : (lhs ++ ['=']) ++ src e = lhs ++ '=' :: src e := by simp
+  have := operate_sugar tr (lhs ++ ['=']) (preOK_lhs hl) e h u (by rw [e1]; exact hu)
+  rw [this, e1]
+  exact operate_source_tokens tr lhs e hl hg h hq
+
 /-! ## non-vacuity -/
 
 /-- the laws are those of exact arithmetic: rationals with a NaN element satisfy them -/
@@ -643,5 +677,46 @@ example : operate trEx "a+-b*2".toList = operate trEx "a-b*2".toList := by
   exact h
 example : (operate trEx "a+-b*2".toList).1.toOption = some (some [-3, -6, -6])
     ∧ (operate trEx "c=a--b".toList).2.feats = trEx.feats ++ [(['c'], [3, 0, 9])] := by decide +kernel
+
+/-- T15: `-a*(-b+a)--b` — two bare minuses and a doubled sign — is `0-a*(0-b+a)+b` -/
+def gEx : Sx := .bin '+' (.bin '-' (.num ['0']) (.bin '*' (.var ['a'])
+  (.par (.bin '+' (.bin '-' (.num ['0']) (.var ['b'])) (.var ['a']))))) (.var ['b'])
+theorem gEx_src : src gEx = "0-a*(0-b+a)+b".toList := by decide +kernel
+theorem gEx_ok : SrcOK gEx := by simp only [gEx, SrcOK, NameOK]; decide
+theorem gEx_sugar : Sugar ("0-a*(0-b+a)+b".toList) ("-a*(-b+a)--b".toList) := by
+  have h0 : Sugar ("0-a*(0-b+a)+b".toList) ("0-a*(".toList ++ '0' :: '-' :: "b+a)+b".toList) := by
+    have e : "0-a*(".toList ++ '0' :: '-' :: "b+a)+b".toList = "0-a*(0-b+a)+b".toList := by decide +kernel
+    rw [e]; exact .refl
+  have h1 := Sugar.zero h0 (Or.inr ⟨"0-a*".toList, '(', by decide +kernel, Or.inr (Or.inl rfl)⟩)
+  have h1' : Sugar ("0-a*(0-b+a)+b".toList) (([] : Str) ++ '0' :: '-' :: "a*(-b+a)+b".toList) := by
+    have e : ([] : Str) ++ '0' :: '-' :: "a*(-b+a)+b".toList = "0-a*(".toList ++ '-' :: "b+a)+b".toList := by decide +kernel
+    rw [e]; exact h1
+  have h2 := Sugar.zero h1' (Or.inl rfl)
+  have h2' : Sugar ("0-a*(0-b+a)+b".toList) (("-a*(-b+a".toList ++ [')']) ++ '+' :: 'b' :: []) := by
+    have e : ("-a*(-b+a".toList ++ [')']) ++ '+' :: 'b' :: [] = ([] : Str) ++ '-' :: "a*(-b+a)+b".toList := by decide +kernel
+    rw [e]; exact h2
+  have h3 := Sugar.pair h2' SignPair.mm (by decide) (by decide) (by decide)
+  have e : ("-a*(-b+a".toList ++ [')']) ++ '-' :: '-' :: 'b' :: [] = "-a*(-b+a)--b".toList := by decide +kernel
+  rw [e] at h3; exact h3
+example : operate trEx "-a*(-b+a)--b".toList = operate trEx "0-a*(0-b+a)+b".toList := by
+  have h := operate_source_sugar trEx [] preOK_nil gEx gEx_ok "-a*(-b+a)--b".toList
+    (by rw [List.nil_append, gEx_src]; exact gEx_sugar)
+  rw [List.nil_append, gEx_src] at h
+  exact h
+example : (operate trEx "-a*(-b+a)--b".toList).1.toOption = some (some [3, -6, 9]) := by decide +kernel
+example : ((preprocess "-a*(-b+a)--b".toList).bind (fun p => makeRPN p.1)).toOption
+    = some (outputName :: (Expr.post (desugar gEx) ++ [['=']])) := by
+  rw [tokens_of_sugared_source gEx gEx_ok _ (by rw [gEx_src]; exact gEx_sugar)]; rfl
+
+/-- T15'': `c=-a*(-b+a)--b` stores `[3, -6, 9]` under the new name `c` -/
+example : (operate trEx "c=-a*(-b+a)--b".toList).2.feats = trEx.feats ++ [(['c'], [3, -6, 9])] := by decide +kernel
+
+/-- outside `SrcOK` (no number or name ends with `.`): a literal written `2.` directly before `*` holds the pattern `.*` of the
+FILTER shorthand — `2.*a` is rewritten to `2!a`, not read as `2.0*a` (the real code does the same and raises KeyError);
+`a*2.` and `2.+a` are read as written -/
+example : (preprocess "2.*a".toList).toOption = some ("#output = 2!a".toList, false)
+    ∧ ((preprocess "2.*a".toList).bind (fun p => makeRPN p.1)).toOption = some [outputName, ['2'], ['a'], ['!'], ['=']]
+    ∧ ((preprocess "a*2.".toList).bind (fun p => makeRPN p.1)).toOption = some [outputName, ['a'], ['2', '.'], ['*'], ['=']] := by
+  decide +kernel
 
 end TV.C02
